@@ -45,7 +45,7 @@ class Poly:
                 d = dict(k1)
                 for s, e in k2:
                     d[s] = d.get(s, 0) + e
-                k = tuple(sorted(d.items()))
+                k = tuple(sorted((s_, e_) for s_, e_ in d.items() if e_ != 0))
                 t[k] = t.get(k, 0) + v1 * v2
         return Poly(t).reduce()
 
@@ -121,7 +121,7 @@ def _rawmul(a, b):
             d = dict(k1)
             for s, e in k2:
                 d[s] = d.get(s, 0) + e
-            k = tuple(sorted(d.items()))
+            k = tuple(sorted((s_, e_) for s_, e_ in d.items() if e_ != 0))
             t[k] = t.get(k, 0) + v1 * v2
     return Poly(t)
 
